@@ -144,7 +144,12 @@ def replay(ctx, mj, named, opts, fmt, failed):
     if kind != 'ok':
         det['real'] = f'{kind}: {toks}'
         return True, det
-    sts, order = decode_structs(toks)
+    try:
+        sts, order = decode_structs(toks)
+    except T.DecodeError as e:
+        # the property needs plain `offset_of!(S, f) == N` / `size_of::<S>() == N` assertions: anything weaker does not pin the layout
+        det['failed'] = [f'layout assertion of another shape: {e}']
+        return True, det
     offs, spans, members = {}, {}, {}
     for name, h in named.items():
         st = mj['types'][h]['inner']['Struct']
